@@ -114,6 +114,22 @@ func TestVerifC07(t *testing.T) {
 			c.Steps = append(c.Steps, advStep{At: t0 + 4*time.Second, Kind: "rs", Src: vSrc(1, 77)})
 			c.StopAt = t0 + 7*time.Second
 		}
+		if i%10 == 6 {
+			// the forwarding sysctl is unreadable for a while (the interface is being
+			// reconfigured; four shapes of error) and a solicitation arrives meanwhile:
+			// whatever the task does about the fault - end, be re-established - it does
+			// not go on as if nothing had happened with the solicitation lost
+			c.ID = fmt.Sprintf("sysctlfault/%d", i)
+			c.UnicastOnly, c.WriteErrKind, c.MACPerGen = i%20 == 6, "", false
+			c.Min, c.Max = 20*time.Second, 30*time.Second
+			shape := []string{"", "notexist", "perm", "other"}[i/10%4]
+			t0 := 5*time.Second + time.Duration(rr.Int63n(int64(3*time.Second)))
+			c.Steps = []advStep{{At: t0 - 2*time.Second, Kind: "rs", Src: vSrc(0, 1)},
+				{At: t0, Kind: "fwderr", On: true, Err: shape}, {At: t0 + 50*vMs, Kind: "rs", Src: vSrc(0, 2)},
+				{At: t0 + 1500*vMs, Kind: "fwderr", On: false}, {At: t0 + 2500*vMs, Kind: "rs", Src: vSrc(1, 3)}}
+			c.StopAt = t0 + 5*time.Second
+			r.Count("sysctl_fault_histories", 1)
+		}
 		if r.Part != "det" && i%3 == 0 {
 			// K1 reproducer: a solicitation delivered in the very instant the
 			// delayed first periodic RA (t = 3 s) fires, then silence.
